@@ -261,12 +261,14 @@ class SymbolGraph(metaclass=SingletonMeta):
         Get all wrapped instances of the given type and all its subclasses.
 
         :param type_: The symbol type to look for
-        :return: All wrapped instances that refer to an instance of the given type.
+        :return: All instances of the given type. An instance that was garbage collected but is not yet removed from the
+         graph is skipped.
         """
         yield from (
-            instance.instance
+            instance
             for cls in [type_] + recursive_subclasses(type_)
-            for instance in list(self._class_to_wrapped_instances[cls])
+            for wrapped_instance in list(self._class_to_wrapped_instances[cls])
+            if (instance := wrapped_instance.instance) is not None
         )
 
     def get_wrapped_instance(self, instance: Any) -> Optional[WrappedInstance]:
